@@ -163,6 +163,13 @@ def seq_judge(args) -> Optional[Dict[str, Any]]:
 
 
 # ---- Binding C+B: concurrent scripts under DetSched -------------------------------------------------------
+# run by thread 0 after the concurrent phase: the abstract object must still be consistent (a count that went wrong,
+# an item that was lost or kept, shows when the container / the primary is finally disposed)
+EPILOGUE = {"refcount": [("dispose", 0), ("read", 0)], "composite": [("len", 0), ("dispose", 0), ("read", 0) if False else ("len", 0)],
+            "serial": [("dispose", 0), ("read", 0)], "single": [("dispose", 0), ("read", 0)], "multiple": [("dispose", 0), ("read", 0)],
+            "disposable": [("dispose", 0), ("read", 0)], "boolean": [("read", 0)]}
+
+
 def scripts_for(kind: str, nthreads: int, tier: str) -> List[Dict[str, Any]]:
     """prologue (thread 0, sequential) + one short script per thread"""
     out = []
@@ -182,7 +189,7 @@ def scripts_for(kind: str, nthreads: int, tier: str) -> List[Dict[str, Any]]:
         menus = [[("assign", 2)], [("assign", 3)], [("dispose", 0)], [("dispose", 0), ("assign", 4)], [("dispose", 0), ("read", 0)]]
     elif kind == "refcount":
         pros = [[], [("get", 1)], [("get", 1), ("get", 2)]]
-        menus = [[("dispose", 0)], [("ddep", 1)], [("ddep", 2)], [("get", 3), ("ddep", 3)], [("ddep", 1), ("ddep", 1)],
+        menus = [[("ddep", 1)], [("dispose", 0)], [("ddep", 2)], [("get", 3), ("ddep", 3)], [("ddep", 1), ("ddep", 1)],
                  [("dispose", 0), ("read", 0)], [("get", 3)]]
     else:
         raise ValueError(kind)
@@ -214,9 +221,16 @@ def scripts_for(kind: str, nthreads: int, tier: str) -> List[Dict[str, Any]]:
             if len(gets) != len(set(gets)):
                 ok = False
             if ok:
-                out.append({"kind": kind, "pro": pro, "scripts": scr})
+                out.append({"kind": kind, "pro": pro, "scripts": scr, "epi": EPILOGUE.get(kind, [])})
     if tier == "quick" and len(out) > 16:
-        out = out[:: max(1, len(out) // 16)][:16]
+        # always keep the scripts in which two threads race on the SAME item / handle, then a stride sample of the rest
+        def racy(sc):
+            ops_ = [tuple(x) for s_ in sc["scripts"] for x in s_]
+            same = len(ops_) != len(set(ops_))
+            return same and len(sc["pro"]) == max(len(p) for p in pros)
+        keep = [sc for sc in out if racy(sc)][:6]
+        rest = [sc for sc in out if sc not in keep]
+        out = keep + rest[:: max(1, len(rest) // (16 - len(keep)))][:16 - len(keep)]
     return out
 
 
@@ -228,6 +242,8 @@ def explore_script(args) -> Dict[str, Any]:
     stats = {"executions": 0, "deadlocks": 0, "steplimit": 0, "contended": 0, "thread_exc": 0}
 
     def run_one(choose):
+        holder = {}
+
         def build(ds):
             names = {"main": 0}
 
@@ -236,6 +252,7 @@ def explore_script(args) -> Dict[str, Any]:
                 ev["th"] = names.get(t.name if t else "main", 0)
                 ds.trace.append(ev)
             rig = Rig(kind, log, falsy)
+            holder["rig"] = rig
             for (op, arg) in sc["pro"]:
                 rig.call(op, arg)
             for k, script in enumerate(sc["scripts"], start=1):
@@ -245,7 +262,12 @@ def explore_script(args) -> Dict[str, Any]:
                     for (op, arg) in script:
                         rig.call(op, arg)
                 ds.spawn(f"T{k}", body)
-        return shims.run_execution(build, choose, focus=FOCUS, max_steps=5000)
+        ds = shims.run_execution(build, choose, focus=FOCUS, max_steps=5000)
+        if not (ds.deadlocked or ds.step_limit_hit):
+            rig = holder["rig"]
+            for (op, arg) in sc.get("epi", []):      # sequential epilogue on the set-up thread (thread 0)
+                rig.call(op, arg)
+        return ds
 
     with shims.patched():
         ex = detsched.Explorer(bound=bound, max_schedules=max_sched, random_schedules=nrandom, seed=seed)
